@@ -42,10 +42,18 @@ impl Default for Cfg {
 }
 
 pub const NAMES: [&str; 14] = ["r", "ra", "rab", "rb", "x.y", "dep-1", "D", "r_2", "a", "z9", "R", "Ra", "d", "A"];
-pub const OPNAMES: [&str; 5] = ["$a", "$ab", "$b", "$c", "$a_1"];
+pub const OPNAMES: [&str; 9] = ["$a", "$ab", "$b", "$c", "$a_1", "$az", "$azure_1", "$a0", "$aZ"];
 pub const FIELDS: [&str; 4] = ["f0", "f1", "f2", "f3"];
 
+/// a path of 40 segments and its prefix of 31: a lookup that silently drops segments lands on the other one
+pub fn long_path(n: usize) -> Vec<String> {
+    (0..n).map(|i| format!("n{i}")).collect()
+}
+
 fn field_segs(rng: &mut Rng) -> Vec<String> {
+    if rng.chance(1, 40) {
+        return long_path(*rng.pick(&[31usize, 40]));
+    }
     match rng.below(8) {
         0 => vec!["d".into(), rng.pick(&FIELDS).to_string()],
         1 => vec!["k v".into()],
@@ -57,11 +65,26 @@ pub fn all_paths() -> Vec<Vec<String>> {
     let mut v: Vec<Vec<String>> = FIELDS.iter().map(|f| vec![f.to_string()]).collect();
     v.extend(FIELDS.iter().map(|f| vec!["d".to_string(), f.to_string()]));
     v.push(vec!["k v".into()]);
+    v.push(long_path(31));
+    v.push(long_path(40));
     v
 }
 
 fn field_test(rng: &mut Rng, err_ops: bool) -> Operand {
     let segs = field_segs(rng);
+    if rng.chance(1, 6) {
+        // less ordinary literals: quoted keywords, numbers at the representation boundaries, numeric-looking
+        // text that differs from its value's canonical spelling, non-ASCII text
+        let (op, lit) = match rng.below(if err_ops { 6 } else { 3 }) {
+            0 => (rng.below(2), Lit::Text { s: rng.pick(&["none", "some", "true", "false", "None", "TRUE", "False"]).to_string(), dq: rng.chance(1, 2) }),
+            1 => (0, Lit::sq(*rng.pick(&["00", "0x0", "-0", "42.0", "0x2a", "1.0", "+1", "1e0", " 1", "\u{e9}", "\u{65e5}\u{672c}"]))),
+            2 => (0, Lit::sq(*rng.pick(&["9007199254740993", "18446744073709551615", "-9223372036854775808", "9007199254740992.0"]))),
+            3 => (2 + rng.below(4), Lit::sq(*rng.pick(&["9007199254740992.0", "9007199254740993", "9223372036854775808.0", "18446744073709551616.0", "-9223372036854775808", "18446744073709551615", "0xffffffffffffffff", "-0.0", "1e19", "-1e19"]))),
+            4 => (7, Lit::sq(*rng.pick(&["0xffffffffffffffff", "0x8000000000000000", "-1", "1.5", "0"]))),
+            _ => (2 + rng.below(5), Lit::sq(*rng.pick(&["inf", "NaN", "-inf", "abc", "", "0x", "1_0"]))),
+        };
+        return Operand::Test { segs, op, lit };
+    }
     let k = rng.below(if err_ops { 14 } else { 8 });
     let (op, lit) = match k {
         0..=4 => (0, Lit::sq("1")),
@@ -84,7 +107,7 @@ pub fn random_form_over(rng: &mut Rng, vars: &[String], depth: usize, quant: (u6
             let g: Option<String> = match rng.below(4) {
                 0 | 1 => None,
                 2 => Some("$a".into()),
-                _ => Some(rng.pick(&["$ab", "$b", "$c", "$zz"]).to_string()),
+                _ => Some(rng.pick(&["$ab", "$b", "$c", "$zz", "$az", "$a0", "$a_", "$azure"]).to_string()),
             };
             return match rng.below(4) {
                 0 => Form::All(g),
@@ -222,6 +245,14 @@ pub fn random_ruleset(rng: &mut Rng, cfg: &Cfg) -> Vec<SRule> {
 }
 
 pub fn random_value(rng: &mut Rng) -> FieldValue {
+    if rng.chance(1, 6) {
+        return match rng.below(4) {
+            0 => FieldValue::String(rng.pick(&["none", "true", "false", "some", "00", "0x0", "-0", "42.0", "0x2a", "42", "\u{65e5}\u{672c}\u{8a9e}", "\u{20ac}100", "1\u{e9}", "D\u{e9}sir\u{e9}e", "9007199254740993", "inf", "NaN"]).to_string()),
+            1 => FieldValue::Number(Number::Int(*rng.pick(&[i64::MIN, i64::MAX, -9007199254740993, 9007199254740993, 42, 0]))),
+            2 => FieldValue::Number(Number::Uint(*rng.pick(&[u64::MAX, 1u64 << 63, 9007199254740993, 9007199254740992, 42, 0]))),
+            _ => FieldValue::Number(Number::Float(*rng.pick(&[9007199254740992.0, 9223372036854775808.0, 18446744073709551616.0, f64::INFINITY, f64::NEG_INFINITY, -0.0, 1e19, -1e19, 42.0, -9223372036854775808.0]))),
+        };
+    }
     match rng.below(16) {
         0..=4 => FieldValue::String("1".into()),
         5..=7 => FieldValue::String("0".into()),
